@@ -7,6 +7,8 @@ Decided structurally (see DESIGN.md §C06):
   C06.qsort     typestate: every call of the C library qsort happens with qsort_lock held; lock/unlock balanced
   C06.order     no lock acquired while the other may be held; no call from a locked region to code that may lock
   C06.ids       the id counter is only ever post-incremented (under the lock); Index assigned once (constructor)
+  C06.fresh     no scalar/pointer/array member of the engine object is left indeterminate on a fresh instance: each is assigned by
+                the constructor or by the first-load sequence on every path (shared must-write engine and re-checked table of C07)
   C06.nondet    census of nondeterminism sources (clock/random/env/pid) restricted to the status/timing sites;
                 pointer-keyed ordered containers are never iterated
   C06.copy      compile-fail witness: IPhreeqc is not copyable (two ids can never share one engine)
@@ -294,6 +296,8 @@ def run(P, R, tier):
 
     ids_rule(P, R, "C06.ids")
     filenames_rule(P, R)
+    from . import c07 as C07
+    C07.fresh_rule(P, R, "C06.fresh")
 
     # ------------------------------------------------------------------ C06.nondet
     rn = R.rule("C06.nondet", "nondeterminism sources (clock, random, env, pid) only at the status/elapsed-time sites", minimum=3)
